@@ -13,8 +13,9 @@ can share a translation unit (x -> x_17, N -> N_17, S3 -> S3_17, ...).  Which de
 by the spec (ids in the items) and judged by spec/ScopesJudge.tla.
 """
 
+# variant: 0 = lambdas are not `mutable`, names are only read inside lambda bodies (`if (x) { }`); 1 = every lambda is
+# `mutable` and uses are assignments everywhere
 ARG_TEXT = {"char": "'a'", "short": "(short)1", "int": "1", "long": "1L", "float": "1.5f", "double": "1.5"}
-USE_FORMS = ("%s = 1;", "++%s;", "%s += 2;")
 
 
 class _Line:
@@ -103,10 +104,10 @@ def render(prog, tag, lang="c++", variant=0):
                 if k:
                     ln.put(", ")
                 ln.put("int ").name(nm(p["nm"]), i, sj)
-            ln.put(") mutable {")
-            openers.append("};")
+            ln.put(") mutable {" if variant else ") {")
+            openers.append("};L")
         elif op == "close":
-            ln.put(openers.pop())
+            ln.put(openers.pop().rstrip("L"))
         elif op == "decl":
             f = it["form"]
             if f == "smember":
@@ -125,11 +126,10 @@ def render(prog, tag, lang="c++", variant=0):
                 ln.put("::")
             elif f == "qual":
                 ln.put("".join(nm(q) + "::" for q in it["q"]))
-            form = USE_FORMS[(variant + i) % len(USE_FORMS)] if variant else USE_FORMS[0]
-            pre, post = form.split("%s")
-            if pre and f != "plain":
-                pre, post = "", " = 1;"
-            ln.put(pre).name(nm(it["nm"]), i, 0).put(post)
+            read = not variant and any(o.endswith("L") for o in openers)
+            if read:
+                ln.text = ln.text[:2 * depth] + "if (" + ln.text[2 * depth:]
+            ln.name(nm(it["nm"]), i, 0).put(") { }" if read else " = 1;")
         elif op == "fdecl":
             ln.put("void ").name(nm(it["nm"]), i, 0).put("(%s);" % ", ".join(p["nm"] for p in sub))
         elif op == "call":
